@@ -104,6 +104,7 @@ def signatures(rep, prog):
             okt = term_equal(b0.f.get('node1'), A('n_first')) and term_equal(b0.f.get('node2'), A('n_second'))
         rep.ob('R17.sig', 'network:entry_to_branch', ok, f'entry -> {b0!r:.160}', f.site)
         rep.ob('R17.sig', 'network:terminal-order', okt, f'Branch(node1={b0.f.get("node1") if isinstance(b0, Rec) else None!r:.40}, node2={b0.f.get("node2") if isinstance(b0, Rec) else None!r:.40})', f.site)
+    order_invariance(rep, prog)
     # circuit components
     cm = prog.mod(CDL)
     ents = prog.table(CDL, 'circuit_component_translators')
@@ -120,6 +121,56 @@ def signatures(rep, prog):
         ok2 = kinds == {key}
         if not kinds: ok2 = None
         rep.ob('R17.sig', f'circuit:{key}', (ok and ok2) if ok2 is not None else None, f"{fname}(id, nodes, …) constructs kind {sorted(kinds)}" + ('' if ok and ok2 else ' -- MISMATCH with its table key'), site)
+
+
+def order_invariance(rep, prog):
+    """the order of the keys of a description entry carries no meaning (JSON / YAML mappings): the element built from an entry is the same
+    term for every insertion order of its value keys.  The value keys of a kind are found by probing the VALUE of its table entry with the
+    parameter names of the element factories (a TypeError of the analysed call is decided); the conversion of the single values is opaque."""
+    import itertools
+    from ..terms import Raised, Closure
+    m = prog.mod(LD); em = prog.mod('Network.elements')
+    ns = prog.module_namespace(m)
+    values = ns.get('network_branch_translators')
+    cands = []
+    for nm, d in em.defs.items():
+        if isinstance(d, ast.FunctionDef) and d.returns is not None and 'Element' in ast.unparse(d.returns):
+            for p_ in params_of(d)[0] + params_of(d)[4]:
+                if p_ not in cands and p_ != 'name': cands.append(p_)
+    if not isinstance(values, dict) or not cands:
+        rep.ob('R17.sig', 'network:key-order', None, 'loader table / factories not followed'); return
+    def build(hv, keys):
+        ev = Evaluator(prog); ev.opaque_fns.add((LD, 'to_complex')); ev._try_depth += 1
+        kw = {k: A('v_' + k) for k in keys}; kw['name'] = A('the_name')
+        kw = dict(sorted(kw.items(), key=lambda kv: (list(keys) + ['name']).index(kv[0])))
+        try: return ev.apply(hv, [], kw, m, 1), None
+        except Raised as ex: return None, (ex.kind, ex.detail)
+    n = 0
+    for key, hv in values.items():
+        if not isinstance(key, str): continue
+        site = next((prog.site(m, vn) for k_, kn, vn in prog.table(LD, 'network_branch_translators') if k_ == key), '')
+        keys = list(cands)
+        t = err = None
+        for _ in range(len(cands) + 1):
+            t, err = build(hv, keys)
+            if err is None or err[0] != 'TypeError' or 'unexpected keyword argument' not in err[1]: break
+            bad = err[1].split("'")[1] if "'" in err[1] else None
+            if bad not in keys: break
+            keys.remove(bad)
+        if err is not None or not isinstance(t, Rec):
+            continue                    # kinds whose construction is not followed are decided by the signature rule above
+        if 'missing-arg' in repr(tkey(t)) or len(keys) == len(cands):
+            rep.ob('R17.sig', f'network:{key}:key-order', None, f'the keyword arguments reaching the factory are not followed: {t!r:.120}', site); n += 1; continue
+        if len(keys) < 2: continue      # nothing to permute
+        n += 1
+        orders = list(itertools.permutations(keys)) if len(keys) <= 3 else [tuple(keys), tuple(reversed(keys))]
+        base = tkey(t); diff = None
+        for o in orders[1:]:
+            t2, e2 = build(hv, list(o))
+            if e2 is not None or tkey(t2) != base: diff = (o, t2 if e2 is None else e2); break
+        rep.ob('R17.sig', f'network:{key}:key-order', diff is None, (f'the same element for every order of the keys {keys}' if diff is None else
+               f'keys written in the order {list(diff[0])} give {diff[1]!r:.120}, in the order {keys} {t!r:.120}: a value lands on another parameter depending on the order of the keys'), site)
+    if n == 0: rep.ob('R17.sig', 'network:key-order', None, 'no kind with two value keys was followed')
 
 
 # ---------------------------------------------------------------------------------------------- R17.pure
